@@ -261,7 +261,11 @@ func (hs *history) genRename(st *step, users []channel.Channel) {
 	for i, ch := range hs.pickTargets(users, 3) {
 		st.Keys = append(st.Keys, uint32(ch.Key()))
 		var nm string
+		past := hs.pastNames[ch.Key()]
 		switch x := r.Intn(100); {
+		case x < 20 && len(past) > 0:
+			// back to a name the channel had before (e.g. the one it was created with)
+			nm = prng.Pick(r, past)
 		case x < 70:
 			nm = hs.freshName()
 		case x < 82:
@@ -274,6 +278,12 @@ func (hs *history) genRename(st *step, users []channel.Channel) {
 			nm = prng.Pick(r, poolNames)
 		}
 		st.Names = append(st.Names, nm)
+		if hs.pastNames == nil {
+			hs.pastNames = map[channel.Key][]string{}
+		}
+		if len(past) == 0 || past[len(past)-1] != ch.Name {
+			hs.pastNames[ch.Key()] = append(past, ch.Name)
+		}
 	}
 	if r.Chance(8, 100) {
 		if k, ok := hs.someGoneKey(); ok {
